@@ -89,6 +89,7 @@ func (b *bareBackend) ServeHTTP(w http.ResponseWriter, r *http.Request) {
 // hC03Pipe: whatever the backend does, the client gets a response that is valid in its own protocol
 // with exactly one terminal disposition; error code and message survive (C04).
 func hC03Pipe() {
+	refStrictCompressed = true // every peer here is well-formed
 	pipeSliceCount = 4
 	cfg, ok := pickPipeCfg()
 	pipeSliceCount = 3
